@@ -161,7 +161,7 @@ Proof.
     apply RH. intros ix Ex Hx. rewrite mbind_run.
     pose proof (read_chain_spec t le Unone (HB r) ix names s (conj HK Hx)) as H. step_with H; [|exact H].
     destruct H as (H1 & _ & H3). destruct r0 as [o pn]. cbn [mbind node_of].
-    destruct (nth_error _ i) as [c|]; [|exact H1]. rewrite mbind_run.
+    destruct (py_nth _ i) as [c|]; [|exact H1]. rewrite mbind_run.
     pose proof (remove_child_K Unone (HB r) o c s0 H1) as H. step_with H; exact H.
   - (* ODelListIndex *)
     apply RH. intros ix Ex Hx. rewrite mbind_run.
@@ -176,8 +176,8 @@ Proof.
     apply RH. intros ix Ex Hx. rewrite mbind_run.
     pose proof (read_chain_spec t le Unone (HB r) ix names s (conj HK Hx)) as H. step_with H; [|exact H].
     destruct H as (H1 & _ & H3). destruct r0 as [o pn]. cbn [mbind node_of].
-    destruct (nth_error _ i) as [c|] eqn:En; [|exact H1]. cbn [ret]. split; auto.
-    apply nth_error_In in En. rewrite (I_index _ (K_Inv _ _ _ H1)) in En. apply filter_In in En.
+    destruct (py_nth _ i) as [c|] eqn:En; [|exact H1]. cbn [ret]. split; auto.
+    apply py_nth_In in En. rewrite (I_index _ (K_Inv _ _ _ H1)) in En. apply filter_In in En.
     apply (I_bound _ (K_Inv _ _ _ H1) o). tauto.
   - (* OGrabList *)
     apply RH. intros ix Ex Hx. cbn [mbind node_of].
